@@ -90,6 +90,10 @@ def decode_sv_comp(comp):
     return out
 
 
+def nz_(d):
+    return {bytes(k_): v for k_, v in d.items() if v}
+
+
 def run_case(case):
     r = Result()
     svs_sync.secrets = _Secrets(case['jitter'])
@@ -122,14 +126,31 @@ def _run(sim, case, r):
             cb_publishes['pending'] = i.new_data()
     inst = SvsInst(BASE, ME, on_missing, DigestSha256Signer(for_interest=True), pass_all,
                    sync_interval=30, suppression_interval=0.2, last_used_seq_num=case['start_seq'])
-    sim.vl.call(inst.start, sim.app)
-    sim.vl.settle()
     me_key = node_key('me')
     model = {me_key: case['start_seq']}
-    trace = []
     flags = set()
-    sup = None           # dict heard-merge while the library says SyncSuppression
+    for _ in range(case.get('publish_before_start', 0)):
+        # data produced before the sync group is joined (new_data() is usable before start())
+        try:
+            seq = inst.new_data()
+        except Exception as e:
+            r.bad(f'C18/publish-before-start-raised/{type(e).__name__}', repr(e)[:200])
+            return
+        model[me_key] += 1
+        flags.add('publish-before-start')
+        if seq != model[me_key]:
+            r.bad('C18/publish-sequence/before-start', f'returned {seq}, expected {model[me_key]} (last used {case["start_seq"]})')
+            return
+    sim.vl.call(inst.start, sim.app)
+    sim.vl.settle()
+    trace = []
+    mstate = 'steady'    # the model's own view: 'steady' | 'sup' (a suppression period is running)
+    sup = None           # merge of the vectors heard during the running suppression period
     sup_heard_n = 0
+    sup_start = 0.0
+    if nz_(inst.local_sv) != {k_: v for k_, v in model.items() if v}:
+        r.bad('C18/local-vector-after-start', f'{dict(inst.local_sv)} != {model}')
+        return
 
     def emitted_since(n0):
         out = []
@@ -252,20 +273,23 @@ def _run(sim, case, r):
                           f'emitted {em[-1:] or "nothing"}; local {model}')
                     return
                 sup = None
+                mstate = 'steady'
             cb = len(missing) - n_missing
             if cb != (1 if raised else 0):
                 r.bad(f'C18/missing-data-callback/{"not-called" if raised else "spurious"}', f'{cb} calls; {before} -> {got}')
                 return
             accepted = (not broken and not overclaim and got == allowed[0]) and bool(valid)
-            # suppression bookkeeping from the public state
-            if inst.state == SvsState.SyncSuppression:
-                if state_before != SvsState.SyncSuppression:
-                    sup = dict(valid) if accepted else {}
-                    sup_heard_n = 1
-                elif accepted:
-                    for key, seq in valid.items():
-                        sup[key] = max(sup.get(key, 0), seq)
-                    sup_heard_n += 1
+            # suppression bookkeeping: WHEN a period starts is the library's decision (the property does not say); from then on
+            # the model owns the period: it lasts 0.1..0.3 s (suppression_interval 0.2 +- 50 %) unless a publication ends it
+            if mstate == 'steady' and inst.state == SvsState.SyncSuppression and published_in_cb is None:
+                mstate = 'sup'
+                sup = dict(valid) if accepted else {}
+                sup_heard_n = 1
+                sup_start = sim.vl.clock.t
+            elif mstate == 'sup' and accepted:
+                for key, seq in valid.items():
+                    sup[key] = max(sup.get(key, 0), seq)
+                sup_heard_n += 1
             trace.append('r' if not (malformed or broken or overclaim) else 'm')
         elif k == 'publish':
             seq = sim.vl.call(inst.new_data)
@@ -282,6 +306,7 @@ def _run(sim, case, r):
                 r.bad('C18/announced-vector-differs', f'{em[-1]} != {model}')
                 return
             sup = None
+            mstate = 'steady'
             trace.append('p')
         elif k == 'adv':
             now = sim.vl.clock.t
@@ -299,17 +324,22 @@ def _run(sim, case, r):
                 if nz(v) != nz(model):
                     r.bad('C18/announced-vector-differs', f'{v} != {model}')
                     return
-            if state_before == SvsState.SyncSuppression and inst.state == SvsState.SyncSteady and sup is not None:
+            t_end = sim.vl.clock.t
+            ended = mstate == 'sup' and (t_end > sup_start + 0.3 + 1e-6 or
+                                         (t_end >= sup_start + 0.1 - 1e-6 and inst.state == SvsState.SyncSteady))
+            if ended:
                 need = any(v > sup.get(k_, 0) for k_, v in model.items())
                 if sup_heard_n >= 2:
                     flags.add('suppression>=2')
+                flags.add('suppression-end-needed' if need else 'suppression-end-silent')
                 if need and not em:
                     r.bad('C18/suppression-end/needed-announcement-missing', f'local {model} heard-merge {sup}')
                     return
-                if not need and em:
+                if not need and em and t_end < sup_start + 27.0:     # (the periodic announcement comes 27..33 s after the period)
                     r.bad('C18/suppression-end/unneeded-announcement', f'local {model} heard-merge {sup}')
                     return
                 sup = None
+                mstate = 'steady'
                 trace.append('S')
             else:
                 trace.append('a')
@@ -361,11 +391,22 @@ def _ops():
         via = draw(st.sampled_from(['receive', 'handler']))
         vec = {'op': 'recv', 'entries': [[node, 'abs', draw(st.sampled_from([3, 7])), None], ['me', 'abs', 9, None]], 'via': via, 'flags': []}
         return draw(st.lists(anyop, max_size=2)) + [vec] + [{'op': 'publish'}] * 9 + [dict(vec)] + draw(st.lists(anyop, max_size=3))
-    return st.one_of(free, free, free, template(), template2())
+    @st.composite
+    def template3(draw):
+        """A suppression period that ends silently (a vector as new as the local one was heard in it), then a lagging vector
+        and the end of the period it opens: an announcement is due."""
+        via = draw(st.sampled_from(['receive', 'handler']))
+        everyone = [[n, 'rel', 0, None] for n in ('n1', 'n2', 'n3', 'me')]
+        lag = {'op': 'recv', 'entries': [['me', 'rel', -1, None]], 'via': via, 'flags': []}
+        core = [{'op': 'publish'}, {'op': 'adv', 'how': '1ms'}, dict(lag),
+                {'op': 'recv', 'entries': everyone, 'via': via, 'flags': []},
+                {'op': 'adv', 'how': 'after'}] + draw(st.lists(adv, max_size=1)) + [dict(lag), {'op': 'adv', 'how': 'after'}]
+        return draw(st.lists(anyop, max_size=2)) + core + draw(st.lists(anyop, max_size=3))
+    return st.one_of(free, free, free, template(), template2(), template3())
 
 
 def _case():
-    return st.fixed_dictionaries({'start_seq': st.integers(0, 3), 'publish_in_callback': st.sampled_from([False, False, True]), 'jitter': st.lists(st.integers(0, 65535), min_size=1, max_size=4),
+    return st.fixed_dictionaries({'start_seq': st.integers(0, 3), 'publish_before_start': st.sampled_from([0, 0, 0, 1, 2]), 'publish_in_callback': st.sampled_from([False, False, True]), 'jitter': st.lists(st.integers(0, 65535), min_size=1, max_size=4),
                                   'ops': _ops()})
 
 
